@@ -258,8 +258,11 @@ def smulwbLaneAvx2 (a b : Int) : Int :=
   let p := (wrap32 a * wrap32 (b * 65536)) % 18446744073709551616
   p / 4294967296
 
-/-- silk_mm_srai_round_epi32 (:125-129): `(a + (1 << (bits-1))) >> bits` with a wrapping add. -/
-def sraiRoundLane (a : Int) (bits : Nat) : Int := wrap32 (a + 2 ^ (bits - 1)) / 2 ^ bits
+/-- silk_mm_srai_round_epi32 (:125-130) as committed in b1d58384: `((a >> (bits-1)) + 1) >> 1`, the add being
+    `_mm_add_epi32` (wrapping); `bits > 1` is asserted. -/
+def sraiRoundLane (a : Int) (bits : Nat) : Int := wrap32 (a / 2 ^ (bits - 1) + 1) / 2
+/-- the form it replaced: `(a + (1 << (bits-1))) >> bits` with a wrapping add. -/
+def sraiRoundLaneOld (a : Int) (bits : Nat) : Int := wrap32 (a + 2 ^ (bits - 1)) / 2 ^ bits
 
 /-- silk_RAND (SigProc_FIX.h:601) and silk_mm256_rand_epi32 (:236-241). -/
 def randC (seed : Int) : Int := wrap32 (907633515 + seed * 196314165)
